@@ -63,6 +63,9 @@ enum Fault {
     None,
     Error(u64),
     Abort(u64),
+    /// no fault, but the directory already holds a file under the final name: 0 = same length, zeros;
+    /// 1 = same length, last byte changed; 2 = one byte short; 3 = one byte long; 4 = the right content; 5 = empty
+    Stale(u8),
 }
 
 struct Job {
@@ -104,6 +107,9 @@ pub fn run(tier: &str, seed: u64, outdir: &str) {
     for (si, (_, tails)) in gens.iter().enumerate() {
         let steps = tails.len() as u64 + 4; // create, version, tails.., flush, rename
         jobs.push(Job { size: si, fault: Fault::None, class: "write:no-fault" });
+        for k in 0..6u8 {
+            jobs.push(Job { size: si, fault: Fault::Stale(k), class: "write:over-existing-file" });
+        }
         for k in 0..(steps + 2) {
             jobs.push(Job { size: si, fault: Fault::Error(k), class: "write:error" });
         }
@@ -128,7 +134,28 @@ pub fn run(tier: &str, seed: u64, outdir: &str) {
         let dir = format!("{}/w{}", outdir_s, i);
         std::fs::create_dir_all(&dir).unwrap();
         let (fault_s, ret_s) = match j.fault {
-            Fault::None | Fault::Error(_) => {
+            Fault::None | Fault::Error(_) | Fault::Stale(_) => {
+                if let Fault::Stale(k) = j.fault {
+                    // the name and length the publication will have: from a first run in a scratch directory
+                    let scratch = format!("{}/s{}", outdir_s, i);
+                    std::fs::create_dir_all(&scratch).unwrap();
+                    let mut g0: RevocationTailsGenerator = serde_json::from_str(gen_json).unwrap();
+                    if let Ok((path, _)) = TailsFileWriter::new(Some(scratch.clone())).write(&mut g0) {
+                        let good = std::fs::read(&path).unwrap_or_default();
+                        let name = std::path::Path::new(&path).file_name().map(|x| x.to_string_lossy().into_owned()).unwrap_or_default();
+                        let mut stale = match k {
+                            0 => vec![0u8; good.len()],
+                            1 => { let mut v = good.clone(); if let Some(b) = v.last_mut() { *b ^= 1; } v }
+                            2 => good[..good.len().saturating_sub(1)].to_vec(),
+                            3 => { let mut v = good.clone(); v.push(0); v }
+                            4 => good.clone(),
+                            _ => vec![],
+                        };
+                        if k == 0 && stale == good { stale[0] = 1; }
+                        std::fs::write(format!("{}/{}", dir, name), stale).unwrap();
+                    }
+                    let _ = std::fs::remove_dir_all(&scratch);
+                }
                 let mut g: RevocationTailsGenerator = serde_json::from_str(gen_json).unwrap();
                 if let Fault::Error(k) = j.fault {
                     failpoint::arm(k, Mode::Error);
@@ -172,7 +199,7 @@ pub fn run(tier: &str, seed: u64, outdir: &str) {
     });
     for (j, body) in jobs.iter().zip(lines) {
         let id = out.next_id();
-        let (nt, f) = (gens[j.size].1.len(), match j.fault { Fault::None => "none".to_string(), Fault::Error(k) => format!("error at step {}", k), Fault::Abort(k) => format!("abort at step {}", k) });
+        let (nt, f) = (gens[j.size].1.len(), match j.fault { Fault::None => "none".to_string(), Fault::Error(k) => format!("error at step {}", k), Fault::Abort(k) => format!("abort at step {}", k), Fault::Stale(k) => format!("none, over an existing file (variant {})", k) });
         out.case(&format!("(C19 {} {}", id, body), j.class, || json!({"kind": "write", "tails": nt, "fault": f}));
     }
 
